@@ -55,6 +55,9 @@ def handmade_inner(qc, k):
         return qc.from_(t).select(g, fn.Count("*")).groupby(g).orderby(g).limit(3)
     if k == 6:     # values in several clauses (parameter renumbering)
         return qc.from_(t).select(t.a, 11).where(t.b == 12).having(fn.Max(t.c) > 13).groupby(t.a).limit(14)
+    if k == 7:     # CTE with a column list whose terms carry an alias / a table (the WITH clause is a clause of the inner query too)
+        return (qc.with_(qc.from_(u).select(u.a, u.b), "c2", T.Field("a").as_("ca"), T.Field("b", table=u)).from_(P.AliasedQuery("c2"))
+                .select("a").where(T.Field("b") == 7))
     return None
 
 
@@ -184,7 +187,7 @@ def cases(run, rng):
     REL_SEEN[0] = 0
     for qc in QUERY_CLASSES:
         P_ = positions(qc)
-        for k in range(7):
+        for k in range(8):
             for pn, pf in P_.items():
                 corr = relational("hand:%d" % k, qc, lambda k=k, qc=qc: handmade_inner(qc, k), pn, pf)
                 if corr:
@@ -224,7 +227,7 @@ def check(run: core.Run):
     stmtprop.run_statement_property(
         run, prop="C10", propfile="Props/C10.v", module="Props.C10", theorems=THEOREMS, header=HEADER, cases=cases(run, rng),
         what="the embedding statement", extra_violations=LazyViolations(), extra_cov=lazy_cov,
-        rule="for each inner query (7 hand-made ones with aliased terms in WHERE / GROUP BY / HAVING / ORDER BY / ON, nested, with CTE, with values in several "
+        rule="for each inner query (8 hand-made ones with aliased terms in WHERE / GROUP BY / HAVING / ORDER BY / ON, nested, with CTE, with values in several "
              "clauses; random selects and set operations) x 10 embedding positions (FROM, JOIN, IN, IN under NOT in a mixed AND/OR group, comparison operand, select-list "
              "item, CTE body, set-operation operand and base, function argument) x 6 classes x {inline, parameterised}: the outer statement's text must equal the text "
              "of the same outer statement around a marker query, with the marker's stand-alone text replaced by the inner query's stand-alone text (placeholders renumbered by "
